@@ -83,7 +83,11 @@ def unique(array):
     # numpy.unique doesn't handle mixed-types on python3,
     # so we use pandas
     array = np.asarray(array)
-    I, U = pd.factorize(array.ravel(), sort=True)
+    values = array.ravel()
+    # pandas does not support numerical values with non-native byte order
+    if values.dtype.kind in 'biufc' and not values.dtype.isnative:
+        values = values.astype(values.dtype.newbyteorder('='))
+    I, U = pd.factorize(values, sort=True)
     return U.astype(array.dtype), I.reshape(array.shape)
 
 
